@@ -139,15 +139,27 @@ RSV(w) == <<w, 0, TRUE>>
 B(bs) == <<0, bs, FALSE>>
 
 BitsOfInt(w, v) == [i \in 1..w |-> (v \div (2 ^ (w - i))) % 2]
-BitsOfBytes(bs) == [i \in 1..(8 * Len(bs)) |-> (bs[((i - 1) \div 8) + 1] \div (2 ^ (7 - ((i - 1) % 8)))) % 2]
-ItemBits(it) == IF it[1] = 0 THEN BitsOfBytes(it[2]) ELSE BitsOfInt(it[1], it[2])
-ItemMask(it) == IF it[1] = 0 THEN [i \in 1..(8 * Len(it[2])) |-> 1]
-                ELSE [i \in 1..it[1] |-> IF it[3] THEN 0 ELSE 1]
-BitsToBytes(bits) == [i \in 1..(Len(bits) \div 8) |->
-                        bits[8 * i - 7] * 128 + bits[8 * i - 6] * 64 + bits[8 * i - 5] * 32 + bits[8 * i - 4] * 16
-                        + bits[8 * i - 3] * 8 + bits[8 * i - 2] * 4 + bits[8 * i - 1] * 2 + bits[8 * i]]
-Pack(items) == BitsToBytes(FoldLeft(LAMBDA acc, it : acc \o ItemBits(it), <<>>, items))
-MaskOf(items) == BitsToBytes(FoldLeft(LAMBDA acc, it : acc \o ItemMask(it), <<>>, items))
+
+\* Packing keeps <<bytes so far, number of pending bits (< 8), value of the pending bits>>; integer items
+\* are at most 24 bits wide, so the pending value stays below 2^31.  Byte strings are appended whole when
+\* they start on a byte boundary (they always do in the documented layouts).
+EmitInt(acc, w, v) ==
+    LET nb == acc[2] + w
+        pv == acc[3] * (2 ^ w) + v IN
+    IF nb >= 24 THEN <<acc[1] \o <<pv \div (2 ^ (nb - 8)), (pv \div (2 ^ (nb - 16))) % 256, (pv \div (2 ^ (nb - 24))) % 256>>,
+                       nb - 24, pv % (2 ^ (nb - 24))>>
+    ELSE IF nb >= 16 THEN <<acc[1] \o <<pv \div (2 ^ (nb - 8)), (pv \div (2 ^ (nb - 16))) % 256>>, nb - 16, pv % (2 ^ (nb - 16))>>
+    ELSE IF nb >= 8 THEN <<acc[1] \o <<pv \div (2 ^ (nb - 8))>>, nb - 8, pv % (2 ^ (nb - 8))>>
+    ELSE <<acc[1], nb, pv>>
+PackStep(acc, it) ==
+    IF it[1] # 0 THEN EmitInt(acc, it[1], it[2])
+    ELSE IF acc[2] = 0 THEN <<acc[1] \o it[2], 0, 0>>
+    ELSE FoldLeft(LAMBDA a, x : EmitInt(a, 8, x), acc, it[2])
+Pack(items) == FoldLeft(PackStep, <<<<>>, 0, 0>>, items)[1]
+\* the byte mask of the non-reserved bits: pack all-ones into every non-reserved item, zeros into reserved ones
+MaskOf(items) == Pack([k \in 1..Len(items) |->
+                         IF items[k][1] = 0 THEN <<0, [i \in 1..Len(items[k][2]) |-> 255], FALSE>>
+                         ELSE <<items[k][1], IF items[k][3] THEN 0 ELSE 2 ^ items[k][1] - 1, FALSE>>])
 ItemsWidth(items) == FoldLeft(LAMBDA acc, it : acc + (IF it[1] = 0 THEN 8 * Len(it[2]) ELSE it[1]), 0, items)
 \* value-range check: an integer item fits its width, a byte string has bytes
 ItemsFit(items) == \A k \in 1..Len(items) :
